@@ -12,7 +12,7 @@ import (
 // states of the HANDLER engines are constructed this way (storage contents +
 // a real boot), never by poking fields.
 type Preload struct {
-	Peers    int // total members (voters) n0..n(Peers-1); only n0 is real
+	Peers    int             // total members (voters) n0..n(Peers-1); only n0 is real
 	Entries  []raft.LogEntry // entries after the placeholder, contiguous
 	SnapIdx  uint64          // compacted prefix (0 = none)
 	SnapTerm uint64
